@@ -48,7 +48,9 @@ let final_str = function
   | ROutOfScope -> "outofscope"
 let handle ws = match ws with
   | ["rq"; r; acts] ->
-      let role, side = (match r with "s" -> RServer, AtServer | _ -> RClient, AtClient) in
+      (* `s+split` / `c+splitm`: the application split()s the stream; the model has no such operation - splitting
+         must not change anything *)
+      let role, side = (match r.[0] with 's' -> RServer, AtServer | _ -> RClient, AtClient) in
       let acts = List.map parse_action (split_on ',' acts) in
       close_code := None;
       let m = (try
